@@ -148,6 +148,10 @@ class CallFrame(MemorySegment):
         # also for debugging purposes
         self.ret_addr = ret_addr
 
+        # the depth of the operand stack when the frame was created
+        # (set by the FRAME instruction once the arguments are taken)
+        self.stack_base = 0
+
     def set_temp_reference(self, idx, value):
         # get a non reference value, create a temporary cell for it,
         # and then store a reference to it in the given index.
@@ -442,6 +446,18 @@ class QvmCpu:
                     self.last_trap = code
                     self.last_trap_kwargs = kwargs
             else:
+                # the handler is module-level code: leave the
+                # procedures the error happened in. from here on the
+                # error counts as one of the module-level statement
+                # that called them (the statement RESUME and RESUME
+                # NEXT refer to).
+                while self.cur_frame is not None and \
+                      self.cur_frame.prev_frame is not None:
+                    frame = self.cur_frame
+                    self.trapped_addr = frame.ret_addr - 1
+                    del self.stack[frame.stack_base:]
+                    self.cur_frame = frame.prev_frame
+                    frame.destroy()
                 self.pc = self.trap_target
                 self.error_handler_active = True
                 return
@@ -894,6 +910,7 @@ class QvmCpu:
                 frame.set_temp_reference(idx, value)
 
         # push back return address
+        frame.stack_base = len(self.stack)
         self.push(CellType.LONG, ret_addr)
 
     def _exec_ge(self):
